@@ -529,3 +529,35 @@ pub fn c10_portion_applies() {
         }
     }
 }
+
+// C09 — the validity test of a candidate day: Some(hours of THAT day at the SAME place) iff Fajr and Isha both exist there
+pub static mut TFI_FROM_JD: (u64, u64, u64) = (0, 0, 0);
+pub fn from_jd_spy(jd: JulianDay, coords: crate::geo::coordinates::Coordinates) -> TopAstroDay {
+    unsafe { TFI_FROM_JD = (jd.value.to_bits(), f64::from(coords.latitude).to_bits(), f64::from(coords.longitude).to_bits()) };
+    any_tad(jd, coords)
+}
+#[kani::proof]
+#[kani::unwind(9)]
+#[kani::stub(crate::prayer_times::hours::get_hours, get_hours_spy)]
+#[kani::stub(crate::geo::astro::TopAstroDay::from_jd, from_jd_spy)]
+pub fn c09_test_fajr_isha() {
+    let params = any_params(E::NearestGoodDayFajrIshaInvalid);
+    let coords = any_coords();
+    let mut jd = fixed_jd();
+    jd.value = any_f64_in(2.3e6, 2.6e6);
+    crate::vcover!();
+    let r = test_fajr_isha(&params, coords, Weather::default(), jd);
+    unsafe {
+        assert!(GH_CALLS == 1, "C09 a candidate day is evaluated exactly once");
+        assert!(TFI_FROM_JD.0 == jd.value.to_bits() && TFI_FROM_JD.1 == f64::from(coords.latitude).to_bits() && TFI_FROM_JD.2 == f64::from(coords.longitude).to_bits(),
+            "C09 the candidate day is evaluated at its own Julian Day and at the requested place");
+        assert!(GH_LAT == f64::from(coords.latitude).to_bits() && GH_ANG_FAJR == params.angles[&Prayer::Fajr].to_bits(), "C09 with the same coordinates and parameters");
+    }
+    let good = ret_of(Prayer::Fajr).is_ok() && ret_of(Prayer::Isha).is_ok();
+    assert!(r.is_some() == good, "C09 a candidate day is good exactly when both Fajr and Isha exist on it");
+    if let Some(h) = r {
+        for k in KEYS6 {
+            assert!(bits(&h[&k]) == ret_of(k), "C09 the good day's own conventional hours are what is handed back");
+        }
+    }
+}
